@@ -382,8 +382,8 @@ theorem parentsAux_fuel (s : Strict t) (hn : t.hierarchy.Nodup) :
     rw [parentsAux_fuel s hn i (by omega) f (by omega) p hpm]
 
 /-- `parents` unrolled one level -/
-theorem parents_succ (s : Strict t) (hn : t.hierarchy.Nodup) {i : Nat}
-    (hi : i + 1 < t.hierarchy.length) {c p : Node} (hc : c ∈ t.nodesAt t.hierarchy[i+1])
+theorem parents_succ' (s : Strict t) (hn : t.hierarchy.Nodup) {i : Nat}
+    (hi : i + 1 < t.hierarchy.length) {c p : Node}
     (hp : t.childToParent t.hierarchy[i+1] c = some p) :
     t.parents t.hierarchy[i+1] c =
       (t.hierarchy[i]'(by omega), p) :: t.parents (t.hierarchy[i]'(by omega)) p := by
@@ -398,6 +398,13 @@ theorem parents_succ (s : Strict t) (hn : t.hierarchy.Nodup) {i : Nat}
     rw [parentsAux_fuel s hn i (by omega) f (by omega) p hpm,
       parentsAux_fuel s hn i (by omega) (f+1) (by omega) p hpm]
   exact key _ (by omega)
+
+theorem parents_succ (s : Strict t) (hn : t.hierarchy.Nodup) {i : Nat}
+    (hi : i + 1 < t.hierarchy.length) {c p : Node} (_hc : c ∈ t.nodesAt t.hierarchy[i+1])
+    (hp : t.childToParent t.hierarchy[i+1] c = some p) :
+    t.parents t.hierarchy[i+1] c =
+      (t.hierarchy[i]'(by omega), p) :: t.parents (t.hierarchy[i]'(by omega)) p :=
+  parents_succ' s hn hi hp
 
 theorem parents_top (hn : t.hierarchy.Nodup) (h0 : 0 < t.hierarchy.length) (n : Node) :
     t.parents t.hierarchy[0] n = [] :=
